@@ -38,6 +38,7 @@ def main() -> int:
         return 2
     src = Path(sys.argv[1])
     scale = next((a.split("=")[1] for a in sys.argv if a.startswith("--scale=")), "0.5")
+    tag = next((a.split("=")[1] for a in sys.argv if a.startswith("--tag=")), "")
     only = [a for a in sys.argv[2:] if not a.startswith("--")]
     notes = (src / "notes.md").read_text() if (src / "notes.md").exists() else ""
     bad = 0
@@ -46,7 +47,7 @@ def main() -> int:
         if not m or (only and f"{m.group(1)}-{m.group(2)}" not in only):
             continue
         pid, x = m.group(1), m.group(2)
-        name = f"{pid}-{x}"
+        name = f"{pid}-{x}{tag}"
         d = V / "refactors" / name
         d.mkdir(parents=True, exist_ok=True)
         shutil.copy(patch, d / "patch.diff")
@@ -73,7 +74,7 @@ def main() -> int:
                 sh(f"git -C {REPO} checkout -- src tests")
         (d / "meta.json").write_text(json.dumps(meta, indent=1))
     if notes:
-        (V / "refactors" / f"notes_{src.parent.name}.md").write_text(notes)
+        (V / "refactors" / f"notes_{src.parent.name}{tag}.md").write_text(notes)
     return 1 if bad else 0
 
 
